@@ -367,6 +367,13 @@ func (x *fx) havocAllMem(tagp string) {
 			for _, r := range x.localRefs {
 				x.assume(fmt.Sprintf("(= (select %s %s) (select %s %s))", nv, r, ov, r))
 			}
+			// sentinel error variables of other packages are never reassigned
+			if n == "M.iface" {
+				for _, r := range sortedKeys(x.sentinelRefs) {
+					x.assume(fmt.Sprintf("(= (select %s %s) (select %s %s))", nv, r, ov, r))
+					x.assumptions["unmodelled callees do not reassign the sentinel error variables of other packages (io.EOF, ErrXxx)"] = true
+				}
+			}
 			// so are objects allocated here whose address has not left the function yet
 			if tagp == "call" {
 				for _, ha := range x.heapAllocs {
